@@ -178,6 +178,8 @@ func (e *Engine) qeCallback(q *QEInfo, qr res.QueryRequest) {
 			qr.Timeout(2 * time.Second)
 		case "p:reserr":
 			panic(&res.Error{Code: "test.qpanic", Message: "q"})
+		case "errnomsg":
+			qr.Error(&res.Error{Code: "test.qnomsg"})
 		case "p:err":
 			panic(errors.New("q plain"))
 		case "p:str":
